@@ -177,7 +177,27 @@ def dir_delete_rechecks_kids(ctx: Ctx, rep: Report, rid: str):
     """_handle_dir_delete_not_empty: the children found under the deleted folder, and the folder itself, are force-synced on the side of
     the delete. `mark_changed()` alone is not enough: nothing changed for them, so sync() would clear the flag again."""
     hd = ctx.prog.func("SyncManager._handle_dir_delete_not_empty")
+    sy_, ch_ = hd.params()[1], hd.params()[2]
+    # every look-up of the children asks for the folder's CURRENT path on the deleting side (the children's paths follow the folder's path,
+    # not its last-synced path: after a move-out they are found under the new path only)
+    for gk in [n for n in ctx.own_nodes(hd) if isinstance(n, ast.Call) and pat.match("self.state.get_kids($P, $S)", n) is not None]:
+        okp = pat.match("self.state.get_kids(%s[%s].path, %s)" % (sy_, ch_, ch_), gk) is not None
+        rep.check(rid, "_handle_dir_delete_not_empty|lookup", ctx.line(hd, gk), okp, "children looked up under %s[%s].path on side %s" % (sy_, ch_, ch_),
+                  "the children of the folder being deleted are looked up with `%s`: not under the folder's current path on the deleting side - after the folder was "
+                  "moved its children are not found, never re-examined, and the delete gives up" % ast.unparse(gk))
     loops = [n for n in ctx.own_nodes(hd) if isinstance(n, ast.For) and pat.match("self.state.get_kids($P, $S)", n.iter) is not None]
+    # `kids = [kid for kid, _ in get_kids(..)]` hoisted above the loops
+    hoisted = {}
+    for n in ctx.own_nodes(hd):
+        if isinstance(n, ast.Assign) and isinstance(n.targets[0], ast.Name) and isinstance(n.value, (ast.ListComp, ast.GeneratorExp)) and len(n.value.generators) == 1 \
+                and pat.match("self.state.get_kids($P, $S)", n.value.generators[0].iter) is not None:
+            hoisted[n.targets[0].id] = n.value.generators[0].iter
+    for n in ctx.own_nodes(hd):
+        if isinstance(n, ast.For) and isinstance(n.iter, ast.Name) and n.iter.id in hoisted:
+            fake = ast.For(target=ast.Tuple(elts=[n.target, ast.Name(id="_", ctx=ast.Store())], ctx=ast.Store()) if isinstance(n.target, ast.Name) else n.target,
+                           iter=hoisted[n.iter.id], body=n.body, orelse=n.orelse)
+            ast.copy_location(fake, n)
+            loops.append(fake)
     done = 0
     for lp in loops:
         m = pat.match("self.state.get_kids($P, $S)", lp.iter)
@@ -247,6 +267,11 @@ def data_rows_follow_storage(ctx: Ctx, rep: Report, rid: str):
     if not writes:
         raise AnalysisError("storage_update_data: no storage write found")
     pth = g.reach([g.entry.id], lambda n: n in writes, avoid=fill, follow=NORMAL)
+    pops = [n for n in ctx.own_nodes(f) if isinstance(n, ast.Call) and (pat.match("self.data_id.pop(%s, $$$)" % tagp, n) is not None)] + \
+           [n for n in ctx.own_nodes(f) if isinstance(n, ast.Delete) and any(pat.match("self.data_id[%s]" % tagp, t) is not None for t in n.targets)]
+    rep.check(rid, "storage_delete_tag|forgets-cached-id", f, bool(pops), "the cached row id of the tag is dropped",
+              "storage_delete_tag leaves the tag's cached row id in data_id: the next write of the tag updates a row that no longer exists (ValueError), the tag can "
+              "never be written again - e.g. the walk marker after a rejected cursor")
     rep.check(rid, "storage_update_data|cache-filled-first", u, pth is None, "the tag's rows are looked up in storage before update/create is chosen",
               "storage_update_data chooses between update and create from the in-memory id cache only: after a restart a tag that is written before it was read "
               "gets a second row, and the next read finds two", witness=describe_path(pth) if pth else None)
@@ -332,29 +357,38 @@ def start_rechecks_after_join(ctx: Ctx, rep: Report, rid: str):
 
 
 def walk_dedupe_is_exact(ctx: Ctx, rep: Report, rid: str):
-    """_process_event: a walk event is dropped as 'nothing new' only when hash AND path are EXACTLY equal to what the state holds (`!=` on the
-    raw values); a comparison modulo case / separators would drop a case-only rename found by a walk."""
+    """_process_event: a walk event is dropped as 'nothing new' only when hash AND path are EXACTLY equal to what the state holds (`!=` / `==` on the
+    raw values); a comparison modulo case / separators, or of the hash alone, would drop a rename found by a walk."""
+    from sa import predform
     f = ctx.prog.func("EventManager._process_event")
-    chg = [n for n in ctx.own_nodes(f) if isinstance(n, ast.Assign) and isinstance(n.targets[0], ast.Name) and isinstance(n.value, ast.BoolOp)
-           and {"hash", "path"} <= {x.attr for x in ast.walk(n.value) if isinstance(x, ast.Attribute)}]
-    if len(chg) != 1:
-        raise AnalysisError("_process_event: the `changed = hash differs or path differs` computation was not found")
-    v = chg[0].value
-    ok = isinstance(v.op, ast.Or)
-    seen = set()
-    for d in v.values:
-        e = d
-        neg = False
-        if isinstance(e, ast.UnaryOp) and isinstance(e.op, ast.Not):
-            e, neg = e.operand, True
-        good = isinstance(e, ast.Compare) and len(e.ops) == 1 and isinstance(e.ops[0], ast.Eq if neg else ast.NotEq) and \
-            isinstance(e.left, ast.Attribute) and isinstance(e.comparators[0], ast.Attribute) and e.left.attr == e.comparators[0].attr
-        if good:
-            seen.add(e.left.attr)
-        ok = ok and good
-    rep.check(rid, "_process_event|walk-dedupe-exact", ctx.line(f, chg[0]), ok and {"hash", "path"} <= seen, "hash != hash or path != path (raw values)",
-              "the walk filter compares `%s`: not an exact comparison of hash and path - a change that differs only in case / separators (a case-only rename seen through "
-              "a walk after a lost cursor) is dropped as 'already known'" % ast.unparse(v)[:140])
+    ev = f.params()[1]
+    cands = []
+    for n in ctx.own_nodes(f):
+        e = None
+        if isinstance(n, ast.Assign) and isinstance(n.targets[0], ast.Name):
+            e = n.value
+        elif isinstance(n, ast.If):
+            e = n.test
+        if e is not None and any(isinstance(x, ast.Attribute) and x.attr == "hash" and isinstance(x.value, ast.Name) and x.value.id == ev for x in ast.walk(e)) \
+                and any(isinstance(x, ast.Attribute) and x.attr == "hash" and not (isinstance(x.value, ast.Name) and x.value.id == ev) for x in ast.walk(e)):
+            cands.append((n, e))
+    if len(cands) != 1:
+        raise AnalysisError("_process_event: the comparison of a walk event with the known state was not found (%d candidates)" % len(cands))
+    n, e = cands[0]
+    known = None
+    for x in ast.walk(e):
+        if isinstance(x, ast.Attribute) and x.attr == "hash" and not (isinstance(x.value, ast.Name) and x.value.id == ev):
+            known = ast.unparse(x.value)
+    try:
+        got = predform.dnf(e)
+        wants = [predform.dnf(predform.parse("{k}.hash != {e}.hash or {k}.path != {e}.path".format(k=known, e=ev))),
+                 predform.dnf(predform.parse("{k}.hash == {e}.hash and {k}.path == {e}.path".format(k=known, e=ev)))]
+    except predform.Undecided as u:
+        rep.error("rule=%s reason=undecided: %s" % (rid, u))
+        return
+    rep.check(rid, "_process_event|walk-dedupe-exact", ctx.line(f, n), got in wants, "hash and path compared exactly (raw values)",
+              "the walk filter compares `%s`: not an exact comparison of hash AND path - a change that keeps the hash (a rename / move made while the engine was down; every "
+              "folder rename) or differs only in case / separators is dropped as 'already known'" % ast.unparse(e)[:140])
 
 
 def parent_recorded_when_provider_knows_it(ctx: Ctx, rep: Report, rid: str):
@@ -794,3 +828,147 @@ def uploads_read_the_changed_sides_download(ctx: Ctx, rep: Report, rid: str):
         okx = okx and g.reach(exists_edge, lambda n: n in dl, follow=NORMAL, include_src=True) is None
     rep.check(rid, "download_changed|reuse-only-existing", d, okx, "an existing temp file is reused, a missing one is downloaded",
               "download_changed downloads when the temp file exists and reuses it when it does not: the upload that follows finds no file")
+
+
+def parent_first_priorities(ctx: Ctx, rep: Report, rid: str):
+    """embrace_change, gentle punt behind a changed parent folder: with m = min(child priority, parent priority), in BOTH cases (m < 0, m >= 0) the
+    parent ends strictly below (= ahead of) the child, and in the case m >= 0 neither priority becomes negative (negative = 'immediately, skip ageing')."""
+    from sa import linear
+    ec = ctx.prog.func("SyncManager.embrace_change")
+    sy = ec.params()[1]
+    cf = local_assigned_from(ctx, ec, "self._get_parent_conflict($$$)")
+    if cf is None:
+        raise AnalysisError("embrace_change: parent conflict is not bound to a single local")
+    mp = None
+    for n_ in ctx.own_nodes(ec):
+        if isinstance(n_, ast.Assign) and isinstance(n_.targets[0], ast.Name) and isinstance(n_.value, ast.Call) and pat.match("min(%s.priority, %s.priority)" % (sy, cf), n_.value) is not None:
+            mp = n_.targets[0].id
+    if mp is None:
+        raise AnalysisError("embrace_change: `min(child.priority, parent.priority)` not found")
+    asg = []
+    for n_ in ctx.own_nodes(ec):
+        if isinstance(n_, ast.Assign) and isinstance(n_.targets[0], ast.Attribute) and n_.targets[0].attr == "priority" and isinstance(n_.targets[0].value, ast.Name) \
+                and n_.targets[0].value.id in (sy, cf) and any(isinstance(x, ast.Name) and x.id == mp for x in ast.walk(n_.value)):
+            facts = ctx.facts_at(ec, n_)
+            case = "neg" if fact_in(facts, "%s < 0" % mp, True) else ("nonneg" if fact_in(facts, "%s < 0" % mp, False) else "both")
+            asg.append((case, n_.targets[0].value.id, n_))
+    if not asg:
+        raise AnalysisError("embrace_change: the priority assignments of the parent-conflict punt were not found")
+    sym = lambda e: "m" if isinstance(e, ast.Name) and e.id == mp else None   # noqa: E731
+    for case in ("neg", "nonneg"):
+        d = {}
+        for (cs, who, n_) in asg:
+            if cs in (case, "both"):
+                d[who] = n_
+        ok = sy in d and cf in d
+        detail = "both priorities must be assigned when m %s 0" % ("<" if case == "neg" else ">=")
+        if ok:
+            try:
+                a, b = linear.linear(d[cf].value, sym), linear.linear(d[sy].value, sym)
+            except linear.Undecided as e_:
+                rep.error("rule=%s reason=undecided: %s" % (rid, e_))
+                continue
+            diff = {k: a.get(k, 0) - b.get(k, 0) for k in set(a) | set(b)}
+            diff = {k: v for k, v in diff.items() if v != 0}
+            ok = set(diff) == {"1"} and diff["1"] < 0 and a.get("m", 0) == 1 and b.get("m", 0) == 1
+            if case == "nonneg":
+                ok = ok and a.get("1", 0) >= 0 and b.get("1", 0) >= 0
+            detail = "m %s 0: parent = m%+g, child = m%+g" % ("<" if case == "neg" else ">=", float(a.get("1", 0)), float(b.get("1", 0)))
+        rep.check(rid, "embrace_change|parent-first|%s" % ("m<0" if case == "neg" else "m>=0"), ctx.line(ec, d.get(cf, d.get(sy, asg[0][2]))), ok, detail,
+                  "after the gentle punt: %s - the blocking parent must end strictly ahead of its child, and a priority that was >= 0 must stay >= 0 (a negative priority "
+                  "means 'now': it skips ageing for ever after, it is only recomputed on a path change)" % detail)
+
+
+def rename_copy_guard(ctx: Ctx, rep: Report, rid: str):
+    """SyncState.update, rename on a path-id provider: the other side's half of the entry that already owns the NEW id is grafted onto the rename-from
+    entry only when that entry has no other-side id of its own - a genuine synced peer is never overwritten."""
+    f = ctx.prog.func("SyncState.update")
+    side = f.params()[1]
+    st = [n for n in ctx.own_nodes(f) if isinstance(n, ast.Assign) and isinstance(n.targets[0], ast.Subscript) and isinstance(n.targets[0].value, ast.Name)
+          and isinstance(n.value, ast.Name) and pat.match("$E[1 - %s]" % side, n.targets[0]) is not None]
+    if not st:
+        raise AnalysisError("SyncState.update: the graft `ent[1 - side] = <copy>` was not found")
+    for n in st:
+        e = ast.unparse(n.targets[0].value)
+        facts = ctx.facts_at(f, n)
+        rep.check(rid, "update|graft-guard", ctx.line(f, n), fact_in(facts, "%s[1 - %s].oid" % (e, side), False) and fact_in(facts, n.value.id, True),
+                  "grafted only onto an entry without an other-side id", "`%s` is executed although the entry may already have an other-side id (facts %s): the rename-from entry's "
+                  "own synced peer is overwritten by the peer of the entry that owned the new name - the renamed object ends up at both its old and its new path" %
+                  (ast.unparse(n), sorted(facts)))
+
+
+def codec_keeps_tuples(ctx: Ctx, rep: Report, rid: str):
+    """Deserialisation gives back what was serialised: msgpack.loads is called with use_list=False (tuples stay tuples - a provider's multi-part hash
+    loaded as a list never equals the tuple the provider reports) and raw=False in every deserialize of the state."""
+    n = 0
+    for spec in ("SideState.deserialize", "SyncEntry.deserialize"):
+        try:
+            f = ctx.prog.func(spec)
+        except AnalysisError:
+            continue
+        for c_ in [x for x in ctx.own_nodes(f) if isinstance(x, ast.Call) and ast.unparse(x.func) in ("msgpack.loads", "msgpack.unpackb")]:
+            n += 1
+            kw = {k.arg: k.value for k in c_.keywords}
+            ok = isinstance(kw.get("use_list"), ast.Constant) and kw["use_list"].value is False
+            rep.check(rid, "%s|use_list" % spec, ctx.line(f, c_), ok, "msgpack.loads(..., use_list=False)",
+                      "%s loads stored arrays as lists: a reloaded tuple hash / sync_hash no longer equals the provider's tuple, every entry re-examined after a restart "
+                      "looks changed on both sides (spurious conflicts, renames to .conflicted)" % spec)
+    if n == 0:
+        raise AnalysisError("no msgpack.loads call found in the state's deserialize methods")
+
+
+def walk_propagates_faults(ctx: Ctx, rep: Report, rid: str):
+    """Provider._walk / walk / walk_oid swallow nothing but 'this folder disappeared' (CloudFileNotFoundError): a transient fault while listing a
+    folder propagates, so the caller does not take a partial walk for a complete one."""
+    P = ctx.prog.cls("Provider")
+    n = 0
+    for name in ("_walk", "walk", "walk_oid"):
+        f = P.methods.get(name)
+        if f is None:
+            continue
+        for t in [x for x in ctx.own_nodes(f) if isinstance(x, ast.Try)]:
+            for h in t.handlers:
+                n += 1
+                names = [ast.unparse(e).split(".")[-1] for e in (h.type.elts if isinstance(h.type, ast.Tuple) else [h.type])] if h.type is not None else ["BaseException"]
+                reraises = any(isinstance(x, ast.Raise) for b in h.body for x in ast.walk(b))
+                ok = reraises or set(names) <= {"CloudFileNotFoundError"}
+                rep.check(rid, "Provider.%s|handler" % name, ctx.line(f, h), ok, "swallows only CloudFileNotFoundError",
+                          "Provider.%s swallows %s: a folder that cannot be listed right now is silently left out of the walk, the walk counts as complete (marker "
+                          "written), nothing is reported and the skipped content is never synced" % (name, names))
+    if n == 0:
+        raise AnalysisError("Provider._walk has no exception handler any more (positive control)")
+
+
+def pathless_event_takes_known_path(ctx: Ctx, rep: Report, rid: str):
+    """EventManager._fill_event_path: an event without a path takes the path the state knows for its id, whatever the ignore status of that entry
+    (a discarded entry is exactly the one whose re-creation has to be recognised)."""
+    from sa.util import extra_facts
+    f = ctx.prog.func("EventManager._fill_event_path")
+    ev = f.params()[1]
+    st = [n for n in ctx.own_nodes(f) if isinstance(n, ast.Assign) and pat.match("%s.path" % ev, n.targets[0]) is not None]
+    if not st:
+        rep.violation(rid, "_fill_event_path|fill", f, "_fill_event_path no longer fills the event's path from the state")
+        return
+    ent = local_assigned_from(ctx, f, "self.state.lookup_oid(self.side, %s.oid)" % ev) or "state"
+    for n in st:
+        facts = ctx.facts_at(f, n)
+        extra = extra_facts(facts, [(ent, True), ("%s.path" % ev, False), ("%s.prior_oid" % ev, True), ("%s.prior_oid" % ev, False)])
+        src_ok = pat.match("%s[self.side].path" % ent, n.value) is not None
+        rep.check(rid, "_fill_event_path|fill", ctx.line(f, n), fact_in(facts, ent, True) and not extra and src_ok, "filled whenever the id is known",
+                  "the path of a path-less event is filled from the state only under the extra condition(s) %s: e.g. a re-creation reported without its path lands on the "
+                  "discarded entry of the old object and is finished without being synced" % (extra or "(source `%s`)" % ast.unparse(n.value)))
+
+
+def remote_listing_independent_of_local(ctx: Ctx, rep: Report, rid: str):
+    """SmartCloudSync.smart_listdir_path: the remote half of the merged listing is computed whether or not the local listing succeeded - the loop over
+    state.smart_listdir_path(REMOTE, ..) is reached after the CloudFileNotFoundError handler of the local listdir too."""
+    f = ctx.prog.func("SmartCloudSync.smart_listdir_path")
+    g = ctx.cfg(f)
+    rem = [n for n in g.nodes if node_has_call(n, "self.state.smart_listdir_path(REMOTE, $P)")]
+    hs = [n for n in g.nodes if n.kind == "except" and n.handler_types and "CloudFileNotFoundError" in n.handler_types]
+    if not rem or not hs:
+        raise AnalysisError("smart_listdir_path: remote listing / local not-found handler not found")
+    for h in hs:
+        p_ = g.reach([h.id], lambda n: n in rem, follow=NORMAL)
+        rep.check(rid, "smart_listdir_path|remote-after-local-failure", ctx.line(f, h.ast), p_ is not None, "the remote listing is reached from the not-found handler",
+                  "when the local folder does not exist the remote half of the listing is skipped too: files that exist only in the cloud disappear from the merged listing")
